@@ -387,6 +387,12 @@ def sched_check(ctx, oracle, profiles, nontrivial, witnesses=(), rule=''):
     return results
 
 
+CHAIN2 = {'pkgs': {'p0': {'task': [
+    {'name': 'a0', 'svs': [{'name': 's0', 'vals': [['v0', [1, 0, 0]]]}], 'deps': [], 'fb': []},
+    {'name': 'a1', 'svs': [{'name': 's0', 'vals': [['v0', [1, 0, 0]]]}],
+     'deps': [['alg', 'p0', 'task', 'a0', None, None]], 'fb': []}]}}}
+
+
 def fault_study(ctx, oracle):
     '''histories in which the database refuses a run id during a dispatch
     (farm.dispatch: "allow db impl to throw an exception via rerunid()": the
@@ -401,6 +407,11 @@ def fault_study(ctx, oracle):
     cases.insert(1, {'seed': 'fault-directed-2', 'nev': 0, 'events': [
         ['reg', 1, 0, True], ['reg', 2, 1, True], ['org', [0, 1], None, [1, 2]], ['tickf', 2], ['tick'], ['tick']],
         'nalg': 3})
+    # the witness of the open finding C01 kept-job-sent-while-ancestor-pending
+    # (C01_doing_faults_refuted): chain a0 -> a1, one target
+    cases.insert(2, {'seed': 'c01-kept-job-sent-while-ancestor-pending', 'desc': CHAIN2, 'targets': ['T1'], 'nev': 0,
+                     'events': [['reg', 1, 0, True], ['org', [1], None, [1]], ['tickf', 1],
+                                ['org', [0], None, [1]], ['tick']]})
     out = ctx.harness('drive_sched.py', {'cases': cases})
     nf = 0
     for c, r in zip(cases, out['cases']):
@@ -440,7 +451,7 @@ def fault_study(ctx, oracle):
     ctx.note('fault_histories', {'histories': len(cases), 'dispatches_with_a_refused_run_id': nf,
                                  'correspondence_mismatches': nmis,
                                  'note': 'TickFault k of Model/SchedFault.v: correspondence + oracle; the '
-                                         'invariant theorems of Sched.v cover fault-free histories'})
+                                         'invariant theorems are lifted to histories with faults in Proofs/SchedFaultInv.v'})
     ctx.count(evaluations=len(cases))
 
 
